@@ -204,7 +204,10 @@ def run_agree(sc):
         pars["scale"], pars["background"] = rng.choice([1.0, 0.5]), rng.choice([0.0, 0.125])
     else:
         pars["scale"], pars["background"] = 1.0, 0.0
-    pd = sorted(P.pd_2d if is2d else P.pd_1d)
+    # dispersible names, from the call parameters themselves (not from the table's pd_1d / pd_2d sets, which
+    # are part of what is being checked): every polydisperse parameter, orientation ones only in 2-D
+    pd = sorted(p.name for p in P.call_parameters
+                if p.polydisperse and p.type != "magnetic" and (is2d or p.type != "orientation"))
     # vector elements beyond the multiplicity are not parameters of the SasView-style instance
     for q in P.kernel_parameters:
         if q.length > 1 and q.length_control:
